@@ -85,6 +85,7 @@ int tw_openflags(uint32_t oflags, uint32_t fdflags, int rights) {
     if (oflags & TW_O_EXCL) f |= O_EXCL;
     if (oflags & TW_O_TRUNC) f |= O_TRUNC;
     if (fdflags & TW_FDFLAG_APPEND) f |= O_APPEND;
+    if (fdflags & TW_FDFLAG_SYNC) f |= O_SYNC;
     return f;
 }
 
